@@ -24,6 +24,9 @@ RULE = ("scripts against the real sche.MultiSelector/Sche driven step by step: 1
         "every third case has the service's event centre in DIRECT mode (no local events are produced then; global events, published by foreign goroutines and by other services on their goroutines in every case, must still arrive through the channel); "
         "every fourth case ends with a TEARDOWN phase: while connections send, close and open on their network goroutines, timers are armed and expire, closures are posted, events are published and requests arrive, "
         "the run service is stopped (by the service itself from inside a handler that keeps working, or by a foreign goroutine); afterwards work may be dropped but whatever still runs must be on the loop goroutine, one piece at a time (teardown work is checked, not counted); "
+        "every case involves a SECOND instrumented service (own run service, timer manager, loop goroutine, probe): 1-4 rounds in which 8 timers of the first service expire while it is held busy and are cancelled in its timer queue "
+        "(half by the service, half by a foreign goroutine) while the second service arms 16 timers of its own - every callback is observed with (owning service, goroutine); "
+        "session traffic uses all four client message types (Request, Notify, Response, Push) with a custom kick handler installed, every session-side piece observed for its goroutine; "
         "every fifth case a lopsided single-kind mix). Non-trivial = a user handler ran at least once (scripts) / any stress case; distinct = distinct annotated op lists.")
 TRUSTED_BASE = [
     "Coq 8.16.1 kernel + vm_compute (case evaluation, Examples); no native_compute",
